@@ -26,6 +26,7 @@ Why(s, e) ==    \* diagnosis against the keep=TRUE/FALSE results
   ELSE "packets"
 
 Fresh == [ok |-> TRUE, mode |-> "starting", buf |-> <<>>, pkts |-> <<>>]
+Big   == [ok |-> TRUE, mode |-> "big", buf |-> <<>>, pkts |-> <<>>]      \* a started unit whose content is not carried along
 Skip  == [ok |-> FALSE, mode |-> "", buf |-> <<>>, pkts |-> <<>>]
 Step(s, e) ==   \* <<verdict, next state>>
   IF e.panic # "" THEN <<"panic", Skip>>
@@ -35,6 +36,17 @@ Step(s, e) ==   \* <<verdict, next state>>
   ELSE IF e.op = "reset" THEN
        IF e.bytes # <<>> \/ e.pk # <<>> THEN <<"reset-not-empty", Skip>>
        ELSE <<"", Fresh>>
+  ELSE IF e.op = "write_rep" THEN
+       \* the same continuation packet written e.n times to a started, never completing unit: every call succeeds, the
+       \* unit grows by n payloads and n packets; the bytes themselves are not carried along (Big), because the history
+       \* must go on with a reset or a new unit start, which discard them
+       LET ap == AbsPacket(e) IN
+       IF s.mode # "accumulating" \/ ap.pusi \/ ~ap.haspay \/ e.pred.done # 0 \/ e.pred.fail # 0 THEN <<"harness-bad-repeat", Skip>>
+       ELSE IF e.nonnil # 0 THEN <<"repeated-write-failed", Skip>>
+       ELSE IF e.bytes_len # Len(s.buf) + (e.n * Len(ap.payload)) THEN <<"bytes", Skip>>
+       ELSE IF e.pk_len # Len(s.pkts) + e.n THEN <<"packets", Skip>>
+       ELSE <<"", Big>>
+  ELSE IF s.mode = "big" /\ ~(e.op = "write" /\ AbsPacket(e).pusi) THEN <<"harness-bad-history-after-repeat", Skip>>
   ELSE IF e.op = "write" THEN
        LET c == Candidates(s, e) IN
        IF c = {} THEN <<Why(s, e), Skip>>
